@@ -327,6 +327,20 @@ YEARS = [0, 1, 4, 99, 100, 1899, 1900, 1901, 1904, 1999, 2000, 2001, 2023,
          2024, 2100, 2400, 9998, 9999]
 
 
+PURITY_TEMPLATES = ['=YEAR(A1)',
+                    '=MONTH(A1)',
+                    '=DAY(A1)',
+                    '=DATE(A1,B1,1)',
+                    '=DATE(2000,A1,B1)',
+                    '=EDATE(A1,B1)',
+                    '=EOMONTH(A1,B1)',
+                    '=HOUR(A1)',
+                    '=MINUTE(A1)',
+                    '=SECOND(A1)',
+                    '=WEEKDAY(A1)',
+                    '=YEARFRAC(A1,B1)']
+
+
 def shards(tier, seed):
     out = []
     parts_n = 16
@@ -344,10 +358,14 @@ def shards(tier, seed):
     for k in range(n_h):
         out.append(dict(kind='hyp', seed=seed * 1000 + k,
                         n=1500 if tier == 'quick' else 20000))
+    out.append(dict(kind='purity'))
     return out
 
 
 def run_shard(shard, rec):
+    if shard['kind'] == 'purity':
+        from vlib import purity
+        return purity.run(rec, ID, PURITY_TEMPLATES)
     kind = shard['kind']
     ctx = Ctx(rec)
     if kind == 'sweep':
@@ -430,6 +448,9 @@ def run_shard(shard, rec):
 
 
 def replay(case, rec):
+    from vlib import purity
+    if purity.is_case(case):
+        return purity.replay(rec, ID, case)
     if isinstance(case, list):
         ctx = Ctx(rec)
         if case[0] == 'shift':
